@@ -175,6 +175,14 @@ def export_import(ctx):
     xa = f.to_xarray()
     if not check_export(ctx, xa, spec, arr, labels, unit, tol, what):
         return
+    if ctx.rng.random() < 0.3:
+        # what a user does between export and import: one coordinate is assigned again (the
+        # very same numbers) - the DataArray describes the same field, but its coordinate
+        # index is now listed in another order than its dimensions
+        dsel = spec.dim_names[int(ctx.rng.integers(0, spec.nd))]
+        xa = xa.assign_coords({dsel: (dsel, xa[dsel].values.copy(), dict(xa[dsel].attrs))})
+        what = dict(what, coordinate_reassigned=dsel)
+        ctx.event("export.coordinate_reassigned")
     ok, r = ctx.expect_ok("C17.roundtrip.accepted", df.Field.from_xarray, xa, what=what)
     if not ok:
         return
@@ -289,6 +297,13 @@ def uneven(ctx):
         pmin = rng.choice([-1, 1], spec.nd) * mag * spec.cell * spec.n
         spec = gen.MeshSpec(pmin, spec.cell, spec.n, spec.dims, spec.units, spec.flip)
         ctx.event("uneven.far_from_origin")
+    long_axis = rng.random() < 0.12
+    if long_axis:
+        # thousands of cells along one axis: "evenly spaced" is still about one spacing
+        base = gen.rand_meshspec(rng, nd=1, n_max=3, int_corners=False)
+        spec = gen.MeshSpec(base.pmin, base.cell, np.array([int(10 ** rng.uniform(3.5, 4.5))]),
+                            base.dims, base.units, base.flip)
+        ctx.event("uneven.long_axis")
     f, arr, labels, unit, tol = _make(ctx, spec, dtype="float64")
     names = spec.dim_names
     ax = int(rng.integers(0, spec.nd))
@@ -296,6 +311,8 @@ def uneven(ctx):
     n = int(spec.n[ax])
     c = spec.pmin[ax] + (np.arange(n) + 0.5) * spec.cell[ax]
     how = gen.pick(rng, ["one_point", "one_point", "end_point", "geometric", "two_spacings"])
+    if long_axis:
+        how = gen.pick(rng, ["one_point", "end_point"])
     if how == "one_point":
         j = int(rng.integers(1, n - 1))
         c[j] += rng.choice([-1, 1]) * rng.uniform(0.1, 0.4) * spec.cell[ax]
